@@ -590,6 +590,7 @@ pub fn run(run: &Run, mode: Mode) {
         let opts = BfsOptions { max_states: Some(if thorough { 30_000_000 } else { 3_000_000 }), ..Default::default() };
         let t_slice = std::time::Instant::now();
         let (stats, viols) = bfs(&g, vec![init], &opts);
+        run.sample_paths(sl.name, &stats.sample_paths);
         let slice_wall = t_slice.elapsed().as_secs_f64();
         total_states += stats.states;
         total_trans += stats.transitions;
